@@ -303,3 +303,7 @@ mod tests {
         assert!(pto.has_transmission_interest());
     }
 }
+
+#[cfg(all(aws_s2n_quic_verif, test))]
+#[path = "/verif/harness/core/pto.rs"]
+mod verif;
